@@ -9,3 +9,9 @@ Definition gen_make_zombie : list pstmt :=
 Definition gen_make_zombie_guarded : bool := true.
 Definition gen_detach : list pstmt :=
   [PLoad VP VOb FPrev; PLoad VN VOb FNext; PStore VP FNext VN; PStore VN FPrev VP; PStoreNull VOb FPrev; PStoreNull VOb FNext].
+(* gil_ensure with an existing thread state: ts->gilstate_counter++ happens exactly once on the path that
+   returns PyGILState_UNLOCKED (after/before PyEval_RestoreThread) resp. PyGILState_LOCKED (ts already
+   current: the callback was entered with the GIL held); gil_release is PyGILState_Release(oldstate) *)
+Definition gen_gil_ensure_incr_unlocked : bool := true.
+Definition gen_gil_ensure_incr_locked : bool := true.
+Definition gen_gil_release_plain : bool := true.
